@@ -234,6 +234,24 @@ CLAIMED = {
         "finding C18-parallel-scheduler (matcher: a parallel call outside the equal-rhythm/exact-fill domain); one defect "
         "repaired by a fix: commit (306af39).",
    design="§4 C18"),
+ "C19": dict(
+   text="Models of both exporters: the five LilyPond functions as character strings (compared with the implementation "
+        "character for character) and the MusicXML element tree (compared with the implementation's text after parsing it "
+        "with expat). Lean, unbounded: lyNote_roundtrip / lyNote_no_octave (an independent pitch reader recovers letter, every "
+        "accidental and the octave of ANY note token - any accidental string, any octave), lyNote_standalone; duration_exact (for "
+        "ANY bar, with the divisions the exporter computes, every note element's duration / divisions is exactly the entry's "
+        "length in quarter notes - lcm divisibility over Q) with dvd_lcmList; entry_notes_spec (one note element per note or "
+        "rest; children in order: pitch|rest, chord flag exactly on chord notes after the first, duration, one dot per dot, "
+        "type, time-modification); part_ids_match (part ids = part-list ids, in order, for any composition). Whole tables in "
+        "the kernel: duration_table (10 base values longa..128th x 0-2 dots as the doubles dots() yields, and 8 x 3 tuplets: "
+        "suffix text and ratio), key_table / key_mode_table (30 keys). Tie A: every statement of lilypond.py and musicxml.py, "
+        "type names, longa/breve, clef text.",
+   note=TRUST + "Partial: bar/track/composition LilyPond text structure (braces, \\times blocks, \\time, header) is not "
+        "parsed by a Lean reader; it is tied by the character-exact correspondence and decoded per generated program by the "
+        "independent Python reader. XML text-level well-formedness and escaping are minidom's, validated per document by expat "
+        "(not provable here). Titles containing a double quote are outside the LilyPond domain (the header is not escaped). "
+        "Two defects repaired by fix: commits (14be814, deaaf2d).",
+   design="§4 C19"),
  "C04": dict(
    text="Whole-table kernel evaluation (decide +kernel) of everything the statement says about each of the 30 keys, the 15 "
         "relative couples, the key objects and signature<->key inversion; unbounded theorems for rejections (any string, any "
